@@ -15,6 +15,7 @@ pub fn gen_opts(ctx: &Ctx) -> GenOpts {
   o.and_within = true;
   o.extras = true;
   o.eq_on_bool = !ctx.excl("eq_ne_non_text_numeric_target");
+  o.group_alias_bodies = !ctx.excl("group_rule_aliasing_a_group_rule");
   // map shapes on which one or both validators are known to be wrong (C01-F2..F6, C02-F2..F6)
   o.map_group_choices = !(ctx.excl("json_map_group_choice") || ctx.excl("cbor_map_group_choice"));
   o.map_group_occ = !(ctx.excl("json_map_group_occurrence") || ctx.excl("cbor_map_group_occurrence"));
